@@ -19,8 +19,10 @@ func init() {
 			"(R4) the read cache cannot serve deleted/expired records: Delete evicts (or the cache path validates), cache entries get the relative expiry as TTL, FlushCache flushes exactly when a write cache exists; " +
 			"(R5) MaintainRecordStates decision tables (hashmap, bbolt) by finite-valuation propagation over ordering representatives: physical removal only of invisible records, shadow-marking only of expired undeleted records, and Controller.Put's delete/put table; " +
 			"(R6) purge loops delete only behind prefix/not-deleted/match tests and terminate only at end of data, prefix end or cancellation (a batch boundary does not end the purge); (R7) siblings map 'absent' alike; (R8) the directory walk of the file-tree backend starts at a root that contains every file whose path extends the query prefix (the prefix path itself only when it was tested to be a directory, otherwise its parent or the base path), the callback's key-prefix filter being part of R3. " +
+			"(R9) lock pairing over the functions of package(s) database/storage/hashmap, database/storage/bbolt, database/storage/badger, database/storage/fstree, database/storage/sinkhole, database/storage, database/iterator: " + lockRuleText + ". " +
 			"NOT decided: equivalence with a reference map over operation histories, operator semantics through the accessors, physical state after crashes.",
-		Rules: []ruleFn{c02R1, c02R2, c02R3, c02R4, c02R5, c02R6, c02R7, c02R8},
+		Rules: []ruleFn{c02R1, c02R2, c02R3, c02R4, c02R5, c02R6, c02R7, c02R8,
+			lockRuleFor("C02-R9", 9, []string{"database/storage/hashmap", "database/storage/bbolt", "database/storage/badger", "database/storage/fstree", "database/storage/sinkhole", "database/storage", "database/iterator"}, []string{}, map[string]string{})},
 	})
 }
 
